@@ -64,6 +64,8 @@ def _run_shard(items_file, out_file, stride, offset, n_items, per_prog_timeout, 
                     d = json.loads(line)
                 except json.JSONDecodeError:
                     continue
+                if "beat" in d:
+                    continue
                 if d.get("start"):
                     inflight = d["i"]
                 else:
